@@ -104,6 +104,7 @@ pub mod c17;
 pub mod instr_io;
 pub mod files;
 pub mod files_anm;
+pub mod files_ecl10;
 pub mod c03;
 pub mod c16;
 pub mod c01;
